@@ -29,6 +29,8 @@ while read -r id pats; do
     done
   done
 done < <("$VC" -list-quick)
+# MATRIX_OWN_ONLY=1: run only the seed's own property (results for other properties are kept from the previous meta.json)
+[ "${MATRIX_OWN_ONLY:-0}" = 1 ] && sel="$prop"
 sel=$(echo $sel | tr ' ' '\n' | sort -u | tr '\n' ' ')
 claimed=$("$VC" -list | tr '\n' ' ')
 caught=""; report=""
@@ -53,6 +55,14 @@ m={"property":prop,"breaks":a.get("summary",""),"needs_to_manifest":a.get("needs
    "files_changed":a.get("files_changed",[]),
    "confirmed_by":"tools_seedverify.sh in a scratch worktree of /repo HEAD: patch applies, go build ./... ok, full suite passes with the patch, demonstration fails with the patch and passes without it (demo placed at %s)"%open(os.path.join(d,'demo_dest.txt')).read().strip(),
    "checks_run":sel.split(),"own_property_check":own,"caught_by":caught.split(),"check_report":report.strip().split("\n") if report.strip() else []}
+if os.environ.get('MATRIX_OWN_ONLY')=='1' and os.path.exists(os.path.join(d,'meta.json')):
+    try:
+        o=json.load(open(os.path.join(d,'meta.json')))
+        keep=[c for c in o.get('caught_by',[]) if not c.startswith(prop+'(')]
+        m['caught_by']=m['caught_by']+[c for c in keep if c not in m['caught_by']]
+        m['checks_run']=sorted(set(m['checks_run'])|set(o.get('checks_run',[])))
+        m['check_report']=m['check_report']+[l for l in o.get('check_report',[]) if not l.startswith('['+prop+']')]
+    except Exception: pass
 with open(os.path.join(d,'meta.json'),'w') as f:
     json.dump(m,f,indent=1); f.write("\n")
 PY
